@@ -403,9 +403,9 @@ Section Whole.
       destruct Hf as [f [Hf [Sf Eg]]]. destruct (Hboth f Hf) as (t & gn' & Et & Eg' & _). unfold gk in *. rewrite Eg in Eg'. inversion Eg'; subst gn'.
       assert (Hin : In (t, gn) (tg_pairs g st1)).
       { apply (l_pairs_spec g fs Hboth Hkeys). split; exists f; auto. }
-      destruct (l_gene_inferred g st1 ds t gn NG Hder Hrows1 Hnd Hnew Hin) as [x' [Ex Hfind]].
-      unfold st1 in Ex. rewrite (l_extent_is_expected g fs Hboth Hkeys Htg (g_gkey g) gn) in Ex by (right; split; [reflexivity|exists f; auto]).
-      rewrite Hx in Ex. inversion Ex; subst x'. exact Hfind.
+      apply (l_gene_inferred g st1 ds t gn x NG Hder Hrows1 Hnd Hnew Hin).
+      unfold st1. rewrite (l_extent_is_expected g fs Hboth Hkeys Htg (g_gkey g) gn) by (right; split; [reflexivity|exists f; auto]).
+      exact Hx.
     - intros x. unfold st1. apply (rel_in g fs Hboth Hkeys).
   Qed.
 End Whole.
